@@ -4,6 +4,7 @@
 // reliable broadcast; two SimUnicast nets (private channels / broadcast transport) underneath.
 #include "common.hh"
 #include "simunicast.hh"
+#include "stackunicast.hh"
 #include <memory>
 #include <algorithm>
 #include <set>
@@ -42,6 +43,7 @@ struct StampBuf : public std::streambuf
 	virtual int_type overflow(int_type c)
 	{
 		if (c == traits_type::eof()) return traits_type::not_eof(c);
+		if (text.size() > (8u << 20)) return c; // a party that logs without end (e.g. a damaged stream underneath) is cut off
 		if (bol) { text += "@" + std::to_string(S ? (long long)S->now_ms : 0LL) + " "; bol = false; }
 		text.push_back((char)c); if (c == '\n') bol = true;
 		return c;
@@ -59,13 +61,17 @@ struct World
 	time_t Tu, Tb;
 	std::vector<PartyOut> out;
 	std::unique_ptr<Net> unet, bnet;
+	// full stack: the library's aiounicast_select over simulated descriptors in place of SimUnicast
+	bool fullstack;
+	std::unique_ptr<FdTable> fdt;
+	std::unique_ptr<Stack> ustack, bstack;
 	std::vector<int> faulty;       // 0 honest, else 1 + fault mode
 	std::vector<uint64_t> sendctr;
 	std::vector<Z> msgs;           // messages (hash values) to sign
 	Z vss_secret;
 	RunResult res;
 	CerrCapture cap;
-	World(const Plan &p) : plan(p), S(p.seed, 10), G(NULL), n(4), t(1), trbc(1), tprime(1), proto(0), Tu(1), Tb(30) {}
+	World(const Plan &p) : plan(p), S(p.seed, 10), G(NULL), n(4), t(1), trbc(1), tprime(1), proto(0), Tu(1), Tb(30), fullstack(false) {}
 	void violate(const std::string &prop, const std::string &cls, const std::string &d)
 	{
 		std::ostringstream c; c << " [proto=" << proto << " n=" << n << " t=" << t << " trbc=" << trbc << (proto == PR_RVSS ? " tprime=" + std::to_string(tprime) : std::string()) << " faulty=";
@@ -120,8 +126,18 @@ static void party_main(World &W, size_t i)
 	const Grp &G = *W.G;
 	bool libfaulty = (W.faulty[i] == 1); // the library's own simulate_faulty_behaviour switch
 	bool do_restart = ((W.plan.get("restart", 0) >> i) & 1) != 0;
-	SimUnicast aiou(W.unet.get(), i, aiounicast::aio_scheduler_roundrobin, W.Tu);
-	SimUnicast aiou2(W.bnet.get(), i, aiounicast::aio_scheduler_roundrobin, W.Tu);
+	std::unique_ptr<aiounicast> aiou_p, aiou2_p;
+	if (W.fullstack)
+	{
+		aiou_p.reset(new StackUnicast(W.ustack.get(), i, W.Tu));
+		aiou2_p.reset(new StackUnicast(W.bstack.get(), i, W.Tu));
+	}
+	else
+	{
+		aiou_p.reset(new SimUnicast(W.unet.get(), i, aiounicast::aio_scheduler_roundrobin, W.Tu));
+		aiou2_p.reset(new SimUnicast(W.bnet.get(), i, aiounicast::aio_scheduler_roundrobin, W.Tu));
+	}
+	aiounicast &aiou = *aiou_p, &aiou2 = *aiou2_p;
 	CachinKursawePetzoldShoupRBC rbc(W.n, W.trbc, i, &aiou2, aiounicast::aio_scheduler_roundrobin, W.Tb);
 	rbc.setID("tmcgsim-dkg");
 	StampBuf errbuf; errbuf.S = &W.S; std::ostream err(&errbuf);
@@ -351,6 +367,23 @@ static Plan dkg_generate(uint64_t seed, const Tier &tier)
 	p.cfg["nmsg"] = (proto == PR_DSS) ? (int64_t)g.range(1, 2) : (int64_t)g.range(1, 2);
 	p.cfg["msgclass"] = (int64_t)g.below(1 << 10);
 	bool faults = tier.opt.count("nofaults") == 0 && !g.chance(1, 4);
+	// full stack (drawn from a stream of its own, so that the other dimensions of a seed stay what they were):
+	// bit 0 on, bit 1 authenticated, bit 2 encrypted (only with authentication, as every in-tree user), bit 3 chunked
+	{
+		Rng gs(derive(seed, 77));
+		int64_t fs = 0;
+		if (tier.opt.count("fullstack") ? atoi(tier.opt.find("fullstack")->second.c_str()) != 0 : gs.chance(1, 8))
+		{
+			fs = 1;
+			if (gs.chance(1, 2)) { fs |= 2; if (gs.chance(1, 2)) fs |= 4; }
+			if (gs.chance(1, 4)) fs |= 8;
+			if (gs.chance(2, 3)) fs |= 16;
+			if (gs.chance(1, 2)) fs |= 32;
+			if (gs.chance(1, 3)) fs |= 64;
+		}
+		if (tier.opt.count("fullstack") && atoi(tier.opt.find("fullstack")->second.c_str()) > 1) fs = atoi(tier.opt.find("fullstack")->second.c_str()) | 1;
+		p.cfg["fullstack"] = fs;
+	}
 	if (faults && t > 0)
 	{
 		int f = (int)g.range(1, std::min(t, tmax));
@@ -409,6 +442,28 @@ static RunResult dkg_execute_inner(const Plan &plan, const std::vector<uint64_t>
 	// timing discipline: drift caused by f faulty parties stays below the broadcast time-out
 	if ((int64_t)W.Tb <= 3 * (int64_t)nf * (int64_t)W.Tu + 10) W.Tb = 3 * nf * W.Tu + 30;
 	W.unet.reset(new Net(&W.S, W.n, true, 1)); W.bnet.reset(new Net(&W.S, W.n, true, 2));
+	int64_t fsb = plan.get("fullstack", 0);
+	if (fsb & 1)
+	{
+		W.fullstack = true;
+		W.fdt.reset(new FdTable()); W.fdt->activate();
+		W.ustack.reset(new Stack(W.unet.get(), W.fdt.get(), (fsb & 2) != 0, (fsb & 6) == 6, (fsb & 8) != 0, "tmcgsim-u"));
+		W.bstack.reset(new Stack(W.bnet.get(), W.fdt.get(), (fsb & 2) != 0, false, (fsb & 8) != 0, "tmcgsim-b"));
+		W.res.cnt["probe.fullstack_runs"]++;
+		{
+			// benign byte-level faults (bits 4..6 of the knob): fragments, short reads and writes, EINTR
+			Stack *st[2] = { W.ustack.get(), W.bstack.get() };
+			for (int z = 0; z < 2; z++)
+			{
+				if (fsb & 16) st[z]->frag_num = 64;
+				if (fsb & 32) st[z]->short_num = 24;
+				if (fsb & 64) st[z]->eintr_num = 4;
+			}
+		}
+		if (fsb & 2) W.res.cnt["probe.fullstack_authenticated"]++;
+		if ((fsb & 6) == 6) W.res.cnt["probe.fullstack_encrypted"]++;
+		if (fsb & 8) W.res.cnt["probe.fullstack_chunked"]++;
+	}
 	int lat = (int)plan.get("lat", 0);
 	int64_t lmax = (lat == 0) ? 50 : ((lat == 1) ? 300 : 800);
 	W.unet->lat_max_ms = lmax; W.bnet->lat_max_ms = lmax;
@@ -527,6 +582,16 @@ static RunResult dkg_execute_inner(const Plan &plan, const std::vector<uint64_t>
 	}
 	W.S.max_steps = 3000000;
 	W.S.run();
+	if (W.fullstack)
+	{
+		W.res.cnt["probe.fullstack_bytes_delivered"] += W.ustack->bytes_released + W.bstack->bytes_released;
+		W.res.cnt["probe.fullstack_integers_framed"] += W.ustack->frames + W.bstack->frames;
+		W.res.cnt["probe.fullstack_integers_checked_against_model"] += W.ustack->n_checked + W.bstack->n_checked;
+		W.res.cnt["fault.stack_fragmented_write"] += W.ustack->n_frag + W.bstack->n_frag;
+		W.res.cnt["fault.stack_short_read"] += W.ustack->n_short_r + W.bstack->n_short_r;
+		W.res.cnt["fault.stack_short_write"] += W.ustack->n_short_w + W.bstack->n_short_w;
+		W.res.cnt["fault.stack_select_eintr"] += W.ustack->n_eintr + W.bstack->n_eintr;
+	}
 	if (W.S.step_budget_hit) W.res.cnt["probe.step_budget_hit"]++;
 	// ---- assumption check: an honest party timed out on another honest party -> outside the quantifier
 	std::cerr.rdbuf(cerr_prev);
@@ -588,6 +653,19 @@ static RunResult dkg_execute_inner(const Plan &plan, const std::vector<uint64_t>
 					break;
 				}
 		}
+	}
+	// full stack: the real channel endpoints against the per-link reference model (judged in every run: the byte
+	// layer delivers within its latency bound whatever the parties above it do)
+	if (W.fullstack && W.res.ok())
+	{
+		Stack *st[2] = { W.ustack.get(), W.bstack.get() };
+		for (int z = 0; z < 2 && W.res.ok(); z++)
+			if (!st[z]->violation.empty())
+			{
+				W.res.excluded = false;
+				W.violate("C13", "fullstack_channel", std::string(z ? "broadcast transport: " : "private channels: ") + st[z]->violation +
+					" [auth=" + std::to_string((int)st[z]->auth) + " enc=" + std::to_string((int)st[z]->enc) + " chunked=" + std::to_string((int)st[z]->chunked) + "]");
+			}
 	}
 	if (!assumption_broken)
 	{
@@ -886,7 +964,7 @@ int main(int argc, char **argv)
 	Scenario sc;
 	sc.name = "dkg";
 	sc.real_components = "src/PedersenVSS.cc, GennaroJareckiKrawczykRabinDKG.cc (DKG + NTS), CanettiGennaroJareckiKrawczykRabinASTC.cc (RVSS, ZVSS, DKG, DSS incl. Refresh), JareckiLysyanskayaASTC.cc (RVSS, EDCF::Flip), CachinKursawePetzoldShoupSEABP.cc (reliable broadcast incl. Sync barriers), mpz_helper interpolation";
-	sc.stub_components = "aiounicast_select replaced by SimUnicast (two nets: private channels and broadcast transport, seeded latencies, per-link FIFO); processes (one baton-scheduled task per party); wall clock (discrete-event, per-task skew); entropy; faulty parties: library switch, silence, crash after k messages, mutating/dropping links";
+	sc.stub_components = "aiounicast_select replaced by SimUnicast (two nets: private channels and broadcast transport, seeded latencies, per-link FIFO) except in full-stack runs (probe.fullstack_runs; 1 of 8 by default, all with --fullstack), where the real aiounicast_select runs over simulated descriptors and only the kernel (pipes, select) is a stub; processes (one baton-scheduled task per party); wall clock (discrete-event, per-task skew); entropy; faulty parties: library switch, silence, crash after k messages, mutating/dropping links";
 	sc.rule = "one case = protocol (New-DKG + threshold Schnorr, Pedersen VSS with honest or faulty dealer, Canetti et al. DKG with refresh, threshold DSS with refresh, n-party coin flip) x n=3..7, t<=(n-1)/3, up to t faulty parties of four kinds, latency class, one slow honest party, clock skew, restart (PublishState/stream constructor) of a subset of parties at phase boundaries, messages 0/1/q-1/q/random; oracle by harness GMP code over the collected public members (agreement, share/verification-key match, every (t+1)-subset interpolation, textbook Schnorr/DSA); runs in which an honest party timed out on an honest party are counted as excluded; distinct = history fingerprint over all messages and scheduling decisions";
 	sc.generate = dkg_generate; sc.execute = dkg_execute; sc.shrink_more = dkg_shrink_more; sc.worker_init = dkg_init;
 	return runner_main(argc, argv, sc);
